@@ -96,6 +96,10 @@ func builtinMathFloor(call FunctionCall) Value {
 
 func builtinMathLog(call FunctionCall) Value {
 	number := call.Argument(0).float64()
+	if number > 0 && number < 0x1p-1022 {
+		// math.Log mishandles subnormal arguments on some platforms (amd64): scale into the normal range.
+		return float64Value(math.Log(number*0x1p54) - 54*math.Ln2)
+	}
 	return float64Value(math.Log(number))
 }
 
